@@ -74,7 +74,7 @@ fn(G + 'signed_angle_2vec3D', properties=['C12'], params={'V1': 'Vec3', 'V2': 'V
 
 fn(G + 'intersect_2lines2D', properties=['C12'], params={'p1': 'Vec2', 'd1': 'Vec2', 'p2': 'Vec2', 'd2': 'Vec2'}, returns='opt[Vec2]',
    lets={'det': 'd1[0]*d2[1] - d1[1]*d2[0]'},
-   ensures=['(result is None) == (absr(det) < 1/1000000000000)',
+   ensures=['(result is None) == (det*det <= sq2(d1)*sq2(d2)/1000000000000000000000000)',     # |det| <= 1e-12 |d1| |d2| (relative parallelism test)
             # the returned point lies on both lines
             'implies(result is not None, (result[0]-p1[0])*d1[1] - (result[1]-p1[1])*d1[0] == 0)',
             'implies(result is not None, (result[0]-p2[0])*d2[1] - (result[1]-p2[1])*d2[0] == 0)'])
